@@ -1007,7 +1007,17 @@ pub fn mon_keyup(scn: &Scenario, r: &Record, out: &mut V) {
     if !corrupting {
         for e in &r.events {
             if let Ev::PacketDropped { reason } = &e.ev {
-                if reason == "DecryptionFailed" || reason == "UnprotectFailed" {
+                // RFC 9001 6.5: old read keys are retained for about one PTO only. A datagram that the
+                // schedule delayed (or duplicated late) and that was sent before its sender's latest key
+                // update may arrive after the receiver discarded that generation: that is packet loss.
+                let sender = other(e.ep);
+                let late_old_generation = r.dgrams.iter().any(|d| {
+                    d.from == sender
+                        && (d.action.starts_with('L') || d.action.starts_with('U'))
+                        && d.delivered_at.iter().any(|t| *t == e.t)
+                        && r.events.iter().any(|k| k.ep == sender && k.t >= d.t && k.t <= e.t && matches!(&k.ev, Ev::KeyUpdate { key_type } if key_type.contains("OneRtt") && !key_type.contains("generation: 0")))
+                });
+                if (reason == "DecryptionFailed" || reason == "UnprotectFailed") && !late_old_generation {
                     v(out, "keyup.genuine_packet_undecryptable", format!("{} dropped a genuine packet at {} us: {}", epn(e.ep), e.t, reason));
                 }
             }
